@@ -42,22 +42,15 @@ abbrev Name := String
 
 /-- Where the Rust code panics. -/
 inductive PanicSite where
-  /-- `assert!(schema.is_none())` (mod.rs:124): a second `schema` block. -/
-  | dupSchemaBlock
-  /-- `directives.insert_or_error(..).unwrap()` (mod.rs:134): a directive defined twice. -/
-  | dupDirective
-  /-- `assert!(!get_builtin_scalars().contains(type_name))` (mod.rs:139). -/
-  | builtinRedefined
-  /-- `scalars.insert_or_error(..).unwrap()` (mod.rs:147): a custom scalar defined twice. -/
-  | dupScalar
-  /-- `unimplemented!` on `enum` / `union` / `input` definitions (mod.rs:162–165). -/
+  -- (history: until the repairs of F-16 … F-21b the first loop of `Schema::new` and the look-ups right
+  -- after it had seven more sites: `dupSchemaBlock` (`assert!(schema.is_none())`), `dupDirective` and
+  -- `dupScalar` (`insert_or_error(..).unwrap()`), `builtinRedefined`
+  -- (`assert!(!get_builtin_scalars().contains(type_name))`), `noSchemaBlock`
+  -- (`schema.expect("Schema definition was not present.")`), `queryTypeUndefined`
+  -- (`.expect("The query type set in the schema object was never defined.")`) and `queryTypeNotObject`
+  -- (`_ => unreachable!()`).  Each is a typed `InvalidSchemaError` now: see `SchemaErr`.)
+  /-- `unimplemented!` on `enum` / `union` / `input` definitions (`TypeKind::Enum/Union/InputObject`). -/
   | unsupportedDef
-  /-- `schema.expect("Schema definition was not present.")` (mod.rs:198). -/
-  | noSchemaBlock
-  /-- `.expect("The query type set in the schema object was never defined.")` (mod.rs:203). -/
-  | queryTypeUndefined
-  /-- `_ => unreachable!()` when the query type is an interface (mod.rs:206). -/
-  | queryTypeNotObject
   /-- `panic!("too many nested lists")` in `Type::from_type` (base.rs:270). -/
   | tooManyListLevels
   -- (history: `enumValue`, the `unimplemented!("enum values are not currently supported")` of
@@ -307,6 +300,25 @@ inductive SchemaErr where
   | implementingNonInterface (type iface : Name)
   | duplicateFieldDefinition (type field : Name)
   | duplicateTypeDefinition (type : Name)
+  /-- `DuplicateDirectiveDefinition` (was the panic of F-21) -/
+  | duplicateDirectiveDefinition (name : Name)
+  /-- `DuplicateScalarDefinition` (was the panic of F-21b) -/
+  | duplicateScalarDefinition (name : Name)
+  /-- `DuplicateSchemaDefinition` (was the panic of F-16) -/
+  | duplicateSchemaDefinition
+  /-- `MissingSchemaDefinition` (was the panic of F-17).  (`MissingQueryType`, the other former
+  `expect` at that place, needs a `schema` block without `query:`, which the text parser rejects —
+  `MissingQueryRoot` — and the abstract document cannot express: `Def.schema` always carries a name.) -/
+  | missingSchemaDefinition
+  /-- `UndefinedQueryType` (was the panic of F-18) -/
+  | undefinedQueryType (name : Name)
+  /-- `QueryTypeNotAnObject` (was the panic of F-19) -/
+  | queryTypeNotAnObject (name : Name)
+  /-- `BuiltinScalarRedefinition` (was the panic of F-20) -/
+  | builtinScalarRedefinition (name : Name)
+  /-- `DuplicateFieldParameterDefinition` (F-C10-5: such a field used to be accepted and made the
+  frontend panic in `make_edge_parameters`) -/
+  | duplicateFieldParameterDefinition (type field param : Name)
   deriving Repr, Inhabited, DecidableEq
 
 /-! ## Look-ups in `vertex_types` / `fields` -/
@@ -635,30 +647,48 @@ structure LoopState where
   vertexTypes : List TypeDef := []
   deriving Repr, Inhabited
 
-/-- The first field of `fields` whose name was already inserted for this type. -/
-def firstDupField : List Name → List Field → Option Name
+/-- The first name of the list that already occurred (`!parameter_names.insert(name)`). -/
+def firstDupName : List Name → List Name → Option Name
   | _, [] => none
-  | seen, f :: fs => if seen.contains f.name then some f.name else firstDupField (f.name :: seen) fs
+  | seen, n :: ns => if seen.contains n then some n else firstDupName (n :: seen) ns
 
-/-- One iteration of `for definition in doc.definitions`; `Except.error` is the early `return Err`. -/
+/-- `for field in field_defs { … }` of one type definition: per field, first its parameter names are
+checked (the first repeated one is `DuplicateFieldParameterDefinition`), then the field is inserted
+into `fields` (a name already inserted for this type is `DuplicateFieldDefinition`); the first error is
+an early `return Err(..)`. -/
+def firstFieldErr (tname : Name) : List Name → List Field → Option SchemaErr
+  | _, [] => none
+  | seen, f :: fs =>
+    match firstDupName [] (f.args.map (·.name)) with
+    | some p => some (.duplicateFieldParameterDefinition tname f.name p)
+    | none =>
+      if seen.contains f.name then some (.duplicateFieldDefinition tname f.name)
+      else firstFieldErr tname (f.name :: seen) fs
+
+/-- One iteration of `for definition in doc.definitions`; `Except.error` is the early `return Err`
+(every error of the first loop is an early return: a second `schema` block, a repeated directive, a
+definition named like a built-in scalar — checked first for every type-system definition, also an
+`enum`/`union`/`input` one —, a repeated custom scalar, a repeated type name, a repeated parameter name
+of a field, a repeated field name). -/
 def loopStep (st : LoopState) : Def → Outcome (Except SchemaErr LoopState)
   | .schema q =>
-    if st.schema.isSome then .panic .dupSchemaBlock else .ok (.ok { st with schema := some q })
+    if st.schema.isSome then .ok (.error .duplicateSchemaDefinition)
+    else .ok (.ok { st with schema := some q })
   | .directive n =>
-    if st.directives.contains n then .panic .dupDirective
+    if st.directives.contains n then .ok (.error (.duplicateDirectiveDefinition n))
     else .ok (.ok { st with directives := st.directives ++ [n] })
   | .scalar n =>
-    if isBuiltin n then .panic .builtinRedefined
-    else if st.scalars.contains n then .panic .dupScalar
+    if isBuiltin n then .ok (.error (.builtinScalarRedefinition n))
+    else if st.scalars.contains n then .ok (.error (.duplicateScalarDefinition n))
     else .ok (.ok { st with scalars := st.scalars ++ [n] })
   | .unsupported n =>
-    if isBuiltin n then .panic .builtinRedefined else .panic .unsupportedDef
+    if isBuiltin n then .ok (.error (.builtinScalarRedefinition n)) else .panic .unsupportedDef
   | .type t =>
-    if isBuiltin t.name then .panic .builtinRedefined
+    if isBuiltin t.name then .ok (.error (.builtinScalarRedefinition t.name))
     else if (findType st.vertexTypes t.name).isSome then .ok (.error (.duplicateTypeDefinition t.name))
     else
-      match firstDupField [] t.fields with
-      | some f => .ok (.error (.duplicateFieldDefinition t.name f))
+      match firstFieldErr t.name [] t.fields with
+      | some e => .ok (.error e)
       | none => .ok (.ok { st with vertexTypes := st.vertexTypes ++ [t] })
 
 def runLoop : LoopState → Doc → Outcome (Except SchemaErr LoopState)
@@ -700,19 +730,21 @@ def runChecks (vts : List TypeDef) (q : TypeDef) : Outcome (List SchemaErr × Op
           | .panic s => .panic s
           | .ok e6 => .ok (e1 ++ e2 ++ e3 ++ e4 ++ e5 ++ e6, some origins)
 
-/-- `Schema::new`. -/
+/-- `Schema::new`.  After the first loop: no `schema` block, a query type that is not a defined vertex
+type, or one that is an interface, are early `return Err(..)`s (single errors); only then the six checks
+run and accumulate. -/
 def Schema.new (doc : Doc) : Outcome (Except (List SchemaErr) Schema) :=
   match runLoop {} doc with
   | .panic s => .panic s
   | .ok (.error e) => .ok (.error [e])
   | .ok (.ok st) =>
     match st.schema with
-    | none => .panic .noSchemaBlock
+    | none => .ok (.error [.missingSchemaDefinition])
     | some qname =>
       match findType st.vertexTypes qname with
-      | none => .panic .queryTypeUndefined
+      | none => .ok (.error [.undefinedQueryType qname])
       | some q =>
-        if q.isInterface then .panic .queryTypeNotObject
+        if q.isInterface then .ok (.error [.queryTypeNotAnObject qname])
         else
           match runChecks st.vertexTypes q with
           | .panic s => .panic s
@@ -857,12 +889,12 @@ def Schema.newW (π : HashOrder) (doc : Doc) : Outcome (Except (List SchemaErr) 
   | .ok (.error e) => .ok (.error [e])
   | .ok (.ok st) =>
     match st.schema with
-    | none => .panic .noSchemaBlock
+    | none => .ok (.error [.missingSchemaDefinition])
     | some qname =>
       match findType st.vertexTypes qname with
-      | none => .panic .queryTypeUndefined
+      | none => .ok (.error [.undefinedQueryType qname])
       | some q =>
-        if q.isInterface then .panic .queryTypeNotObject
+        if q.isInterface then .ok (.error [.queryTypeNotAnObject qname])
         else
           match runChecksW π st.vertexTypes q with
           | .panic s => .panic s
@@ -923,8 +955,10 @@ inductive ScalarNarrows : PTy → PTy → Prop where
   | list {pi si : PTy} {pn sn : Bool} : (pn = true → sn = true) → pi.base = si.base →
       ScalarNarrows pi si → ScalarNarrows (.list pi pn) (.list si sn)
 
-/-- The type of parameter `p` among `args` (the last declaration wins when a name is repeated,
-as in the `BTreeMap` the validator builds). -/
+/-- The type of parameter `p` among `args` (the last declaration would win if a name were repeated, as
+in the `BTreeMap` the validator builds — since the repair of F-C10-5 a repeated name is rejected by
+the first loop, `paramsDistinct`, so on a schema that reaches the inheritance checks there is exactly
+one declaration). -/
 def argTy : List Arg → Name → Option PTy
   | [], _ => none
   | a :: as, p =>
@@ -1012,6 +1046,15 @@ structure ValidSchema (doc : Doc) : Prop where
   /-- no ambiguous field origins -/
   unambiguousOrigins : ∀ t ∈ doc.types, ∀ f ∈ t.fields, ∀ a b,
     OriginOf doc.types t.name f.name a → OriginOf doc.types t.name f.name b → a = b
+  /-- no (object, interface or scalar) definition re-uses the name of a built-in scalar -/
+  builtinsNotRedefined : (∀ t ∈ doc.types, isBuiltin t.name = false) ∧
+    (∀ n ∈ doc.scalarNames, isBuiltin n = false)
+  /-- every directive is defined once -/
+  directivesDistinct : doc.directiveNames.Nodup
+  /-- every custom scalar is defined once -/
+  scalarsDistinct : doc.scalarNames.Nodup
+  /-- every parameter name is declared once per field -/
+  paramsDistinct : ∀ t ∈ doc.types, ∀ f ∈ t.fields, (f.args.map (·.name)).Nodup
 
 /-! ## The known panic triggers -/
 
@@ -1028,18 +1071,13 @@ def nodupNames : List Name → Bool
   | n :: ns => !ns.contains n && nodupNames ns
 
 /-- Sufficient (syntactic, decidable) condition excluding every known panic trigger of `Schema::new`:
-exactly one `schema` block; its query type is a defined object type; no definition re-uses a built-in
-scalar name; directive names and custom scalar names are distinct; no `enum`/`union`/`input`
-definitions; no field or parameter type has more than 30 list levels.  (An enum constant in a default
-value was a trigger until the repair of F-C19-1; it is an ordinary invalid default value now.) -/
+no `enum`/`union`/`input` definitions (unsupported constructs: `unimplemented!`); no field or parameter
+type has more than 30 list levels (F-22).  (History: until the repairs of F-16 … F-21b the guard also
+required exactly one `schema` block whose query type is a defined object type, no definition named like
+a built-in scalar, distinct directive names and distinct custom scalar names — each of these is a typed
+error now and such documents are covered by the theorems; an enum constant in a default value was a
+trigger until the repair of F-C19-1.) -/
 def NoKnownSchemaTrigger (doc : Doc) : Bool :=
-  (match doc.schemaBlocks with
-    | [q] => (doc.types.find? (fun t => t.name == q)).any (fun t => !t.isInterface)
-    | _ => false) &&
-  doc.types.all (fun t => !isBuiltin t.name) &&
-  doc.scalarNames.all (fun n => !isBuiltin n) &&
-  nodupNames doc.directiveNames &&
-  nodupNames doc.scalarNames &&
   doc.unsupportedNames.isEmpty &&
   doc.types.all (fun t => t.fields.all Field.clean)
 
